@@ -1,10 +1,13 @@
 package main
 
 import (
+	"context"
 	"encoding/json"
 	"errors"
 	"fmt"
+	"io"
 	"math/rand"
+	"os"
 	"strings"
 
 	"github.com/cloudwego/gopkg/protocol/thrift"
@@ -64,6 +67,9 @@ func (f *foreignEmbTransport) TypeId() int32 { return f.t }
 func (f *foreignEmbProtocol) Error() string  { return f.s }
 func (f *foreignEmbProtocol) TypeId() int32  { return f.t }
 
+// sentinelErrs: plain errors of the standard library that code likes to special-case by identity
+var sentinelErrs = map[int]error{9001: io.EOF, 9002: io.ErrUnexpectedEOF, 9003: context.Canceled, 9004: os.ErrDeadlineExceeded, 9005: io.ErrClosedPipe}
+
 // uncmpErr: an error whose dynamic type is not comparable (like go/scanner.ErrorList); == on two of them panics
 type uncmpErr []string
 
@@ -99,7 +105,11 @@ func buildErr(d *ErrDesc, memo map[int]error) error {
 	var e error
 	switch d.Kind {
 	case "plain":
-		e = errors.New(d.Text)
+		if sv, ok := sentinelErrs[d.UID]; ok { // the well-known sentinel VALUES (identity matters: io.EOF is compared with ==)
+			e = sv
+		} else {
+			e = errors.New(d.Text)
+		}
 	case "uncmp":
 		e = uncmpErr{d.Text}
 	case "foreign":
@@ -317,6 +327,26 @@ func genExcCases(c *Ctx) []json.RawMessage {
 			}
 		}
 	}
+	// the standard library's sentinel values, bare and inside wrappers of other people: a wrapper around io.EOF is an
+	// error of its own (its text, its identity), whatever it answers to errors.Is(err, io.EOF)
+	var sent []*ErrDesc
+	for _, uidS := range []int{9001, 9002, 9003, 9004, 9005} {
+		sent = append(sent, &ErrDesc{UID: uidS, Kind: "plain", Text: sentinelErrs[uidS].Error(), Cause: &ErrDesc{UID: -1, Kind: "none"}})
+	}
+	for _, sd := range sent {
+		w1, w2 := fmtwrap(sd), fmtwrap(fmtwrap(sd))
+		for _, d := range []*ErrDesc{sd, w1, w2} {
+			out = append(out, mustJSON(ExcCase{Fn: "wrap", In: d}))
+			for _, p := range []string{"", "read field 3: "} {
+				out = append(out, mustJSON(ExcCase{Fn: "prepend", Prefix: p, In: d}))
+			}
+			for _, t := range append([]*ErrDesc{w1, w2, mk("plain", 0, sd.Text), mk("protocol", 0, sd.Text), wrap(sd)}, sent...) {
+				out = append(out, mustJSON(ExcCase{Fn: "is", X: wrap(d), T: t}))
+				out = append(out, mustJSON(ExcCase{Fn: "is", X: d, T: t}))
+				out = append(out, mustJSON(ExcCase{Fn: "is", X: wrap(fmtwrap(wrap(d))), T: t}))
+			}
+		}
+	}
 	for _, t := range tids {
 		for _, m := range msgs {
 			p := mk("protocol", t, m)
@@ -341,7 +371,7 @@ func genExcCases(c *Ctx) []json.RawMessage {
 }
 
 func checkC18(c *Ctx) {
-	c.rule = "MC: the full case table of the algebra over all kinds x type ids {0,1,6,10,11,-1,2^31-1,-2^31} x messages {\"\",m} x prefixes x cause chains of depth <= 2 (incl. standard-library %w wrappers around every kind) satisfies the clauses of C18. TRACE: every (kind, type id, message, prefix) combination incl. empty messages (default-message table), long and binary messages, random int32 type ids, wrapped chains, fmt.Errorf(%w) wrappers around every kind (a protocol exception buried in a wrapper is wrapped, not returned); PrependError, NewProtocolExceptionWithErr, errors.Is (pairwise truth table, targeted (type id, text) matches and near-misses) and Unwrap on real values; TLC computes the expected dynamic kind, TypeId, Error() text and Is outcome."
+	c.rule = "MC: the full case table of the algebra over all kinds x type ids {0,1,6,10,11,-1,2^31-1,-2^31} x messages {\"\",m} x prefixes x cause chains of depth <= 2 (incl. standard-library %w wrappers around every kind) satisfies the clauses of C18. TRACE: every (kind, type id, message, prefix) combination incl. empty messages (default-message table), long and binary messages, random int32 type ids, wrapped chains, fmt.Errorf(%w) wrappers around every kind (a protocol exception buried in a wrapper is wrapped, not returned); PrependError, NewProtocolExceptionWithErr, errors.Is (pairwise truth table, targeted (type id, text) matches and near-misses) and Unwrap on real values; TLC computes the expected dynamic kind, TypeId, Error() text and Is outcome. Also the standard library sentinel VALUES (io.EOF, io.ErrUnexpectedEOF, context.Canceled, os.ErrDeadlineExceeded, io.ErrClosedPipe) as plain errors with fixed identity, bare and inside one and two %w wrappers."
 	c.MC("MC_Exceptions.tla", "MC_Exceptions.cfg", 4)
 	c.TraceCheck(famExc, genExcCases(c))
 	c.Assume("error values are described to TLC as records (kind, type id, message, text, cause, identity)")
